@@ -79,7 +79,11 @@ def gen_params(rng, small=True):
     # pixel scale: mostly floats; sometimes a Python int (1 or 2 m per pixel: coarse but legal, and integer arithmetic must not truncate anything)
     ps = rng.loguniform(0.05, 0.5) if rng.random() < 0.8 else rng.choice([1, 2])
     r0 = rng.uniform(0.08, 0.5) if not isinstance(ps, int) else rng.uniform(0.5, 2.0)
-    return {"kind": kind, "nx": nx, "ps": ps, "r0": r0, "L0": rng.uniform(5, 100), "extra": extra}
+    L0 = rng.uniform(5, 100)
+    if rng.random() < 0.1:
+        # microscopic length unit (tens of microns per pixel, r0 and L0 in proportion): nothing may depend on the absolute unit
+        ps = rng.loguniform(1e-5, 1e-4); r0 = ps * rng.uniform(1.0, 5.0); L0 = ps * rng.uniform(50, 1000)
+    return {"kind": kind, "nx": nx, "ps": ps, "r0": r0, "L0": L0, "extra": extra}
 
 
 def vk_cov(r, r0, L0):
